@@ -29,7 +29,12 @@ for f in sorted(glob.glob(os.path.join(ROOT, "sa", "mutants", "c[0-9][0-9].json"
 w("Total: %d faults, all detected by the named rule on the last run.\n" % tot)
 w("### 11.8 Behaviour-preserving variants (every check must stay silent)\n")
 for m in json.load(open(os.path.join(ROOT, "sa", "mutants", "neutral.json"))):
-    w("* " + m["name"].replace("neutral: ", ""))
+    extra = ""
+    if m.get("undecided_ok"):
+        extra = " — *cannot decide (exit 2), anchor renamed*"
+    if m.get("allow"):
+        extra = " — *a listed known finding moves with the code and is reported at its new site*"
+    w("* " + m["name"].replace("neutral: ", "").replace("neutral (", "(") + extra)
 w("")
 w("### 11.9 Independent seeded changes (`/verif/seeded/<id>/`)\n")
 w("Written by fresh sub-agents that saw only the property text and a scratch worktree; each kept change was confirmed here (patch applies and builds, demonstration fails with it and passes without it, pinned suite still passes with it) and then applied to /repo, checked, and undone. `first run` = result of the checks as they stood before the change was seen.\n")
